@@ -28,8 +28,8 @@ func init() {
 		Text: "A byte of a program is read as an opcode only at an instruction pointer, never at an index computed from the length of the byte slice (that byte may be an operand)."})
 	register(&Rule{ID: "R-NARROW", Floor: 6, Run: ruleNarrow,
 		Text: "Every conversion to uint16 that is written into a program is guarded by a range test on the converted value, or re-encodes an operand that was decoded from 16 bits."})
-	register(&Rule{ID: "R-PREPAREFRESH", Floor: 3, Run: rulePrepareFresh,
-		Text: "Prepare starts from empty compile outputs: every Eval field the compiler appends to or inserts into is reset before the compile call."})
+	register(&Rule{ID: "R-PREPAREFRESH", Floor: 4, Run: rulePrepareFresh,
+		Text: "Prepare starts from empty compile outputs: every Eval field the compiler appends to or inserts into is reset before the compile call; and every failing return after that reset has cleared the machine of the previous program."})
 	register(&Rule{ID: "R-NOINJECT", Floor: 4, Run: ruleNoInject,
 		Text: "The library writes into the script's variable namespace only from VM opcode handlers and from SetVariable."})
 }
@@ -71,20 +71,20 @@ func liveRefs(v ssa.Value) []ssa.Instruction {
 // the reason.  Everything else — every function of the module, and every other
 // external function — must have its error looked at.
 var errIgnorable = map[string]string{
-	"(*bytes.Buffer).WriteString":  "documented: err is always nil",
-	"(*bytes.Buffer).WriteByte":    "documented: err is always nil",
-	"(*bytes.Buffer).WriteRune":    "documented: err is always nil",
-	"(*bytes.Buffer).Write":        "documented: err is always nil",
+	"(*bytes.Buffer).WriteString":    "documented: err is always nil",
+	"(*bytes.Buffer).WriteByte":      "documented: err is always nil",
+	"(*bytes.Buffer).WriteRune":      "documented: err is always nil",
+	"(*bytes.Buffer).Write":          "documented: err is always nil",
 	"(*strings.Builder).WriteString": "documented: always returns a nil error",
 	"(*strings.Builder).WriteByte":   "documented: always returns a nil error",
 	"(*strings.Builder).WriteRune":   "documented: always returns a nil error",
 	"(*strings.Builder).Write":       "documented: always returns a nil error",
-	"(hash.Hash).Write":            "hash.Hash: Write never returns an error",
-	"(hash.Hash64).Write":          "hash.Hash: Write never returns an error",
-	"(io.Writer).Write":            "only reached with a hash.Hash receiver (checked by R-EFFECTS); never returns an error",
-	"fmt.Printf":                   "a failed write to standard output has no bearing on any property",
-	"fmt.Print":                    "a failed write to standard output has no bearing on any property",
-	"fmt.Println":                  "a failed write to standard output has no bearing on any property",
+	"(hash.Hash).Write":              "hash.Hash: Write never returns an error",
+	"(hash.Hash64).Write":            "hash.Hash: Write never returns an error",
+	"(io.Writer).Write":              "only reached with a hash.Hash receiver (checked by R-EFFECTS); never returns an error",
+	"fmt.Printf":                     "a failed write to standard output has no bearing on any property",
+	"fmt.Print":                      "a failed write to standard output has no bearing on any property",
+	"fmt.Println":                    "a failed write to standard output has no bearing on any property",
 }
 
 func calleeFullName(c *ssa.CallCommon) string {
@@ -1015,17 +1015,38 @@ func narrowHelperOK(p *Program, hc *ssa.Call) (bool, string) {
 				if !ok {
 					continue
 				}
-				for _, bb := range a.prepare.Blocks {
-					if iff.Block().Succs[0].Dominates(bb) && len(iff.Block().Succs[0].Preds) == 1 {
-						if ret, ok := terminator(bb).(*ssa.Return); ok && !isSuccessReturn(ret) {
-							return true, "range-checked in " + h.Name() + "; failure recorded in " + rec + " and reported by Prepare"
-						}
-					}
+				// once the record is seen set, every way on ends in a failing return
+				if iff.Cond == ssa.Value(ld) && allReturnsFail(iff.Block().Succs[0]) {
+					return true, "range-checked in " + h.Name() + "; failure recorded in " + rec + " and reported by Prepare"
 				}
 			}
 		}
 	}
 	return false, "the range failure recorded in " + rec + " is never turned into an error by Prepare"
+}
+
+// allReturnsFail: every return reachable from b is a failing one (and one is reachable).
+func allReturnsFail(b *ssa.BasicBlock) bool {
+	seen := map[*ssa.BasicBlock]bool{}
+	n, ok := 0, true
+	var w func(x *ssa.BasicBlock)
+	w = func(x *ssa.BasicBlock) {
+		if seen[x] {
+			return
+		}
+		seen[x] = true
+		if ret, isRet := terminator(x).(*ssa.Return); isRet {
+			n++
+			if isSuccessReturn(ret) {
+				ok = false
+			}
+		}
+		for _, s := range x.Succs {
+			w(s)
+		}
+	}
+	w(b)
+	return ok && n > 0
 }
 
 func isMapLookup(v ssa.Value) bool {
@@ -1168,6 +1189,79 @@ func rulePrepareFresh(p *Program, r *Reporter) {
 		}
 		r.Check(reset, key, p.Pos(compileCall.Pos()), "a store of an empty value dominates the compile call", "the compiler appends to / inserts into Eval."+f+" (at "+p.Pos(outputs[f])+") and Prepare does not empty it first: a second Prepare on the same evaluator compiles onto the first program")
 	}
+	prepareCoherent(p, r, a, outputs)
+}
+
+// prepareCoherent: once Prepare has emptied a compile output, the previous
+// machine no longer matches the evaluator's tables; every failing return that
+// can follow such a reset must have the machine field cleared, otherwise a
+// failed Prepare leaves the old program runnable and Dump pairs its bytecode
+// with the new (empty) constants.
+func prepareCoherent(p *Program, r *Reporter, a *anchors, outputs map[string]token.Pos) {
+	key := "a failed Prepare leaves no machine of the previous program behind"
+	var resets, clears []*ssa.Store
+	machineField := ""
+	for _, b := range a.prepare.Blocks {
+		for _, ins := range b.Instrs {
+			st, ok := ins.(*ssa.Store)
+			if !ok {
+				continue
+			}
+			n, fld, ok := fieldOf(st.Addr)
+			if !ok || n == nil || n.Obj().Name() != "Eval" {
+				continue
+			}
+			if _, isOut := outputs[fld]; isOut && isFreshEmpty(st.Val) {
+				resets = append(resets, st)
+			}
+			if pt, ok := st.Val.Type().(*types.Pointer); ok && isNamed(pt.Elem(), "vm", "VM") {
+				machineField = fld
+				if isNilConst(st.Val) {
+					clears = append(clears, st)
+				}
+			}
+		}
+	}
+	if machineField == "" {
+		r.Undecided(key, p.Pos(a.prepare.Pos()), "Prepare does not store a machine into the evaluator")
+		return
+	}
+	if len(resets) == 0 {
+		r.OkNT(key, p.Pos(a.prepare.Pos()), "Prepare never empties the evaluator's tables before it has succeeded")
+		return
+	}
+	bad := ""
+	nret := 0
+	for _, b := range a.prepare.Blocks {
+		ret, ok := b.Instrs[len(b.Instrs)-1].(*ssa.Return)
+		if !ok || isSuccessReturn(ret) {
+			continue
+		}
+		after := false
+		for _, rs := range resets {
+			if rs.Block() == b || blockReaches(rs.Block(), b, nil) {
+				after = true
+			}
+		}
+		if !after {
+			continue
+		}
+		nret++
+		cleared := false
+		for _, c := range clears {
+			if dominatesInstr(c, ret) {
+				cleared = true
+			}
+		}
+		if !cleared && bad == "" {
+			bad = p.Pos(ret.Pos())
+		}
+	}
+	if bad != "" {
+		r.Fail(key, bad, "this error return follows the reset of the compile outputs but Eval."+machineField+" still holds the machine of the previous program: after the failed Prepare, Run executes the old script and Dump indexes the emptied constant table with the old bytecode (index out of range)")
+		return
+	}
+	r.OkNT(key, p.Pos(a.prepare.Pos()), fmt.Sprintf("Eval.%s is set to nil before each of the %d error returns that follow the reset", machineField, nret))
 }
 
 func isFreshEmpty(v ssa.Value) bool {
